@@ -142,6 +142,12 @@ class CSemantics:
                     # Special case 'int function1(void);'
                     arguments = []
 
+                for argument in arguments:
+                    if argument.typ.is_void:
+                        self.error(
+                            "A parameter cannot have void type",
+                            argument.location,
+                        )
                 typ = types.FunctionType(arguments, typ, is_vararg=is_vararg)
             else:  # pragma: no cover
                 raise NotImplementedError(str(modifier))
